@@ -76,7 +76,7 @@ def build_body(vals):
 
 def ob_contain(b0: int, b1: int, b2: int, b3: int, b4: int, b5: int) -> bool:
     state = P['state']
-    w = S.in_state(state, hold=90)
+    w = S.in_state(state, hold=P.get('hold', 90))
     p = w.fsm.protocol
     as4 = bool(p.fourbytesas)
     typ, body = build_body([b0, b1, b2, b3, b4, b5])
@@ -94,6 +94,14 @@ def ob_contain(b0: int, b1: int, b2: int, b3: int, b4: int, b5: int) -> bool:
     n1 = len(w.handler.log)
     # ---- the hostile message: nothing may escape ----------------------------------------------------------
     w.ev_data(M)
+    # one reactor turn: whatever the message scheduled for "now" runs
+    fuel = 4
+    while fuel > 0:
+        fuel -= 1
+        due = [nm for nm in ('hold', 'keepalive', 'connect_retry') if w.timer_active(nm) and w.timer_deadline(nm) <= w.reactor.now]
+        if not due:
+            break
+        w.ev_fire(due[0])
     reports = w.handler.log[n1:]
     if len(reports) > 1:
         return False
@@ -146,6 +154,15 @@ def obligations(tier, seed):
                     out.append(ob('C10/%s/upd-attr/code=%d/val=%d/ext=%s' % (S.STATE_NAMES[st], code, nval, ext), 'ob_contain',
                                   {'state': st, 'shape': 'upd-attr', 'code': code, 'n': 2 + nval, 'ext': ext},
                                   covers=['delivered'], cap=200 if quick else 600))
+    # the same on a session that negotiated hold time 0 (no timers): a malformed UPDATE must not arm one
+    for code in ((1, 2, 14) if quick else ATTR_CODES):
+        for nval in (0, 2):
+            out.append(ob('C10/ESTABLISHED-hold0/upd-attr/code=%d/val=%d' % (code, nval), 'ob_contain',
+                          {'state': S.ESTABLISHED, 'shape': 'upd-attr', 'code': code, 'n': 2 + nval, 'ext': False, 'hold': 0},
+                          covers=['delivered'], cap=200 if quick else 600))
+    for shape, n in (('upd-lens', 4), ('upd-nlri', 2), ('upd-withdraw', 2), ('rr', 4), ('keepalive-body', 1)):
+        out.append(ob('C10/ESTABLISHED-hold0/%s/n=%d' % (shape, n), 'ob_contain',
+                      {'state': S.ESTABLISHED, 'shape': shape, 'n': n, 'hold': 0}, covers=['delivered'], cap=200 if quick else 600))
     for st in ([S.OPENSENT, S.OPENCONFIRM, S.ESTABLISHED]):
         shapes = [('upd-lens', n) for n in ((0, 1, 3, 4) if quick else (0, 1, 2, 3, 4, 5))]
         shapes += [('upd-nlri', n) for n in ((1, 2) if quick else (1, 2, 3, 5))]
